@@ -15,6 +15,10 @@ ASSUME \A p, q \in PPermsUpTo(3) : (p # q) => (PPermLess(p, q) # PPermLess(q, p)
 \* containment found by nested quantifiers is containment
 ASSUME \A p \in PPermsUpTo(3), q \in PPermsUpTo(5) : PContainsQ(q, p) <=> PContains(q, p)
 ASSUME \A p \in PPerms(4), q \in PPerms(5) : PContainsQ(q, p) <=> PContains(q, p)
+\* an occurrence in the extension of an avoider uses the new last entry
+ASSUME \A b \in PPermsUpTo(3), p \in PPermsUpTo(4) : PAvoids(p, b) =>
+          \A v \in 0..Len(p) : LET q == [i \in 1..(Len(p) + 1) |-> IF i = Len(p) + 1 THEN v ELSE IF p[i] >= v THEN p[i] + 1 ELSE p[i]] IN
+             PAvoids(q, b) <=> ~(Len(b) >= 1 /\ Len(b) <= Len(q) /\ \E t \in PIncTuples(Len(b) - 1, Len(q) - 1) : POrderIso(b, Append(PPick(q, t), q[Len(q)])))
 \* the unshaded mesh pattern is the classical pattern; shading only removes occurrences
 ASSUME \A p \in PPermsUpTo(2), q \in PPermsUpTo(4) : MOcc(MUnshaded(p), q) = POcc(p, q)
 ASSUME \A M \in MAllMesh(1), q \in PPermsUpTo(4) : \A c \in MCells(1) : MOcc(MShade(M, {c}), q) \subseteq MOcc(M, q)
